@@ -10,7 +10,8 @@ K      : (a) real basis files of every method truncated at every byte (small siz
 S      : transform-level histories with files truncated / overwritten / emptied / removed between calls: every result
          equals the pristine no-disk result or the call raises; writer-exposure check: np.save must never be pointed
          at a final basis name (else the two-writer "hole" state is built and shown to load with wrong numbers);
-         real multi-process races on a shared empty directory
+         real multi-process races on a shared empty directory; a basis served by cropping a larger file (every such pair)
+         stays correct when the file is overwritten afterwards
 """
 import glob
 import io
